@@ -39,3 +39,23 @@ func (s *Store) BadReadAfterUnlock(k string) int {
 }
 
 func (s *Store) BadHelperWithoutLock() { s.bump() }
+
+// REACQ fixtures
+func (s *Store) Len() int {
+	s.mu.RLock()
+	defer s.mu.RUnlock()
+	return len(s.items)
+}
+
+func (s *Store) BadReacquire() int {
+	s.mu.RLock()
+	defer s.mu.RUnlock()
+	return s.Len() + s.n
+}
+
+func (s *Store) GoodReleaseFirst() int {
+	s.mu.RLock()
+	n := s.n
+	s.mu.RUnlock()
+	return s.Len() + n
+}
